@@ -234,6 +234,7 @@ def decide(prop: str, tier: str, seed: int) -> int:
             seen_known.setdefault(f.signature, f)
         else:
             new.append(f)
+    n_known = sum(1 for f in res.failures if f.signature in known_sigs)
     for sig, f in seen_known.items():
         log(f"KNOWN-FINDING: property={prop} {known_sigs[sig]['what']} [{sig}]")
 
@@ -317,7 +318,7 @@ def decide(prop: str, tier: str, seed: int) -> int:
     ctx.cleanup()
     log(f"[{prop}] {tier}: obligations {cov['discharged']}/{cov['obligations']}, evaluations {res.evaluations} "
         f"({len(res.nontrivial)} distinct non-trivial), mismatches {len(res.mismatches)}, "
-        f"failures {len(res.failures)} (known {len(res.failures) - len(new)}), {wall:.0f}s -> exit {rc}")
+        f"failures {n_known + len(new)} (known {n_known}), {wall:.0f}s -> exit {rc}")
     return rc
 
 
